@@ -24,11 +24,19 @@ Two-phase cases (parts ``resnapshot-after-edit*``) append one edit::
     verb    := add (new handle under ``name``) | replace (new handle over the
                handle ``name``) | addmap (empty ResourceMap under ``name``)
                | clear
+               | deepen (``map[name + '/a'] = handle`` where ``name`` is a
+                 handle: the composite assignment turns it into a sub-map)
+               | mapover (empty ResourceMap assigned over the handle ``name``)
 
-The root snapshot is taken, the edit is applied to the map itself (not
-through the root), a NEW root snapshot is taken and compared in full with the
-map as it is now.  What the first snapshot shows afterwards is not
-constrained by the statement and not looked at.
+The root snapshot is taken and every access path of the tree (and every absent
+name) is read from it; the edit is applied to the map itself (not through the
+root), a NEW root snapshot is taken and compared in full with the map as it is
+now.  Then every path is read again from the OLD snapshot: nobody set or
+deleted anything on it, so each answer must be either the answer it gave
+before the edit (a frozen snapshot) or what the map answers now for that path
+(a live mirror) - the statement does not say which, anything else (a raw
+Handle where a loaded resource was and is expected ...) is a violation
+(``old_snapshot_is_frozen_or_live``).
 """
 import keyword
 
@@ -38,7 +46,7 @@ from mc.report import Violation, HarnessError
 
 import desper
 
-NAMES = ('a', 'b', 'x y', '1a', 'class', '__p')
+NAMES = ('a', 'b', 'x y', '1a', 'class', '__p', '__q__')
 HANDLE_KINDS = ('h', 's', 'u')
 # names asked for although no tree contains them
 FOREIGN = ('zz', 'z z', '_StaticSubmap__p')
@@ -65,12 +73,18 @@ RULE = ('E3: every resource tree of depth <= 3 over the names '
         'edit of the menu {add a handle under a new name (the first absent '
         'slot-able name and the first absent name that is not slot-able), '
         'replace each visible handle by a new one, add an empty sub-map '
-        'under the same new names, clear()} applied to that map object '
-        'itself: get_static_map() on the root, the one edit, '
-        'get_static_map() on the root again, then the full comparison of '
-        'the NEW snapshot (every path by [] / getattr / get, every absent '
-        'name) against the map as it is now.  A two-phase case is distinct '
-        'by (tree, edited map, edit).')
+        'under the same new names, clear(), for each visible handle x: '
+        'map[x + "/a"] = handle (the composite assignment turns the handle '
+        'into a sub-map) and map[x] = ResourceMap() (a map over a handle '
+        'name)} applied to that map object itself: get_static_map() on the '
+        'root, every path and absent name read from it by [] / getattr / '
+        'get, the one edit, get_static_map() on the root again, then the '
+        'full comparison of the NEW snapshot (every path by [] / getattr / '
+        'get, every absent name) against the map as it is now, then every '
+        'path and absent name of the tree before the edit read again from '
+        'the OLD snapshot: each answer is the answer from before the edit '
+        'or the answer of the map now.  A two-phase case is distinct by '
+        '(tree, edited map, edit).')
 
 BOUNDS = {
     # tier: (main part (per_map, total), append-style part (per_map, total))
@@ -84,12 +98,17 @@ EDIT_BOUNDS = {
     'thorough': ((3, 4), (3, 3)),
 }
 EDIT_SEP = '>>'
-EDIT_VERBS = ('add', 'replace', 'addmap', 'clear')
+EDIT_VERBS = ('add', 'replace', 'addmap', 'clear', 'deepen', 'mapover')
+DEEPEN_CHILD = 'a'        # map[name + '/a'] = handle
 DEPTH = 3
 
 
 def name_class(name):
     if name.startswith('__'):
+        # '__q__' is what the directory populator makes of '__main__.py':
+        # stored like '__p' but looking like a special attribute
+        if name.endswith('__') and len(name) > 4:
+            return 'dunder_both_ends'
         return 'dunder'
     if not name.isidentifier():
         return 'non_identifier'
@@ -245,7 +264,8 @@ _SKIPPED = object()
 
 _CLASS_HIT = {'identifier': 'identifier_name',
               'non_identifier': 'non_identifier_name',
-              'keyword': 'keyword_name', 'dunder': 'dunder_name'}
+              'keyword': 'keyword_name', 'dunder': 'dunder_name',
+              'dunder_both_ends': 'dunder_both_ends_name'}
 _PROBES = tuple((n, name_class(n), n.isidentifier())
                 for n in NAMES + FOREIGN)
 
@@ -499,7 +519,8 @@ def take_snapshot(root, **phase):
             f'get_static_map() raised {type(exc2).__name__}: {exc2} '
             f'(map {"/".join(node.path) or "<root>"} with names '
             f'{list(node.entries)})',
-            exc=type(exc2).__name__, dunder='dunder' in classes,
+            exc=type(exc2).__name__,
+        dunder=bool(classes & {'dunder', 'dunder_both_ends'}),
             non_identifier='non_identifier' in classes, **phase)
 
 
@@ -561,6 +582,10 @@ def edits_of(tree, path=()):
     for name in new_names(present):
         yield f'{where};addmap;{name}'
     yield f'{where};clear'
+    for name, kind, _ in tree:
+        if kind != 'm':
+            yield f'{where};deepen;{name}'
+            yield f'{where};mapover;{name}'
     for name, kind, sub in tree:
         if kind == 'm':
             yield from edits_of(sub, path + (name,))
@@ -627,6 +652,30 @@ def apply_edit(root, path, verb, name):
         sub.real = desper.ResourceMap()
         m[name] = sub.real
         node.entries[name] = ('m', sub)
+    elif verb in ('deepen', 'mapover'):
+        old = node.entries.get(name)
+        if old is None or old[0] != 'h':
+            raise HarnessError(f'{name!r} is not a handle in {path!r}')
+        hits.append('edit_turns_handle_into_map')
+        if old[2] != 'h':
+            hits.append('edit_turns_layered_handle_into_map')
+        sub = Node(path + (name,))
+        if verb == 'deepen':
+            # composite key on the edited map: the intermediate map is made
+            # by ResourceMap itself and replaces the handle in every layer
+            h = THandle(f'{where}/{DEEPEN_CHILD}#deepened')
+            m[f'{name}{m.split_char}{DEEPEN_CHILD}'] = h
+            sub.real = m.get(name)
+            sub.entries[DEEPEN_CHILD] = ('h', h, 'h')
+        else:
+            sub.real = desper.ResourceMap()
+            m[name] = sub.real
+        if not isinstance(sub.real, desper.ResourceMap) or name in m.handles:
+            raise HarnessError(f'{verb} of {where!r}: the handle name did '
+                               f'not become a sub-map of the source map '
+                               f'(C11 territory)')
+        hits.append('handle_name_left_handles')
+        node.entries[name] = ('m', sub)
     else:
         if node.entries:
             hits.append('edit_clears_non_empty_map')
@@ -635,21 +684,160 @@ def apply_edit(root, path, verb, name):
     return hits
 
 
+# -- the OLD snapshot after an edit of the source map ---------------------
+# Nobody sets or deletes anything on it, so what it answers may only be what
+# it answered before (frozen reading of "snapshot") or what the map answers
+# now (live reading of "mirror"); the statement does not choose.
+FORMS = ('item', 'attr', 'get')
+_ABSENT = ('absent',)
+
+
+def shape_of(node):
+    """The names of the tree as it is now: {name: None | {..sub-map..}}."""
+    return {name: shape_of(entry[1]) if entry[0] == 'm' else None
+            for name, entry in node.entries.items()}
+
+
+def _read(cur, name, form):
+    try:
+        if form == 0:
+            v = cur[name]
+        elif form == 1:
+            v = getattr(cur, name)
+        else:
+            v = cur.get(name)
+            if v is None:           # as ResourceMap.get answers
+                return _ABSENT
+    except ABSENT_OK:
+        return _ABSENT
+    except Exception as exc:
+        return ('error', type(exc).__name__)
+    return ('obj', v)
+
+
+def read_all(shape, snap):
+    """Every (path, form) of ``shape`` (its names and every absent probe
+    name on every map) read from ``snap`` by chained [] / getattr / get, in a
+    fixed order.  -> [(path, form, outcome)], outcome = ('obj', object) |
+    ('absent',) | ('error', exception name); below something that is not a
+    sub-snapshot (any more) everything counts as absent."""
+    out = []
+    static = desper.StaticResourceMap
+
+    def visit(shape, path, curs):
+        for name, ncls, ident in _PROBES:
+            sub = shape.get(name, _SKIPPED)
+            there = path + (name,)
+            nxt = []
+            for form, cur in enumerate(curs):
+                if cur is _SKIPPED:         # attr walk through a non-identifier
+                    nxt.append(_SKIPPED)
+                    continue
+                if form == 1 and not ident:
+                    nxt.append(_SKIPPED)
+                    continue
+                res = _ABSENT if cur is None else _read(cur, name, form)
+                out.append((there, form, res))
+                nxt.append(res[1] if res[0] == 'obj'
+                           and isinstance(res[1], static) else None)
+            if sub is not _SKIPPED and sub is not None:
+                visit(sub, there, nxt)
+
+    visit(shape, (), [snap, snap, snap])
+    return out
+
+
+def _same(a, b):
+    if a[0] != b[0]:
+        return False
+    return a[1] is b[1] if a[0] == 'obj' else a == b
+
+
+def live_answer(root_map, path, form):
+    """What the source map answers now for ``path`` read step by step:
+    ('obj', resource or handle) | ('map',) | ('absent',)."""
+    cur = root_map
+    for name in path:
+        if not isinstance(cur, desper.ResourceMap):
+            return _ABSENT
+        if form == 2:
+            cur = cur.get(name)
+            if cur is None:
+                return _ABSENT
+        else:
+            try:
+                cur = cur[name]
+            except KeyError:
+                return _ABSENT
+    return ('map',) if isinstance(cur, desper.ResourceMap) else ('obj', cur)
+
+
+def _kind(outcome):
+    if outcome[0] != 'obj':
+        return outcome[0]
+    v = outcome[1]
+    if isinstance(v, desper.Handle):
+        return 'handle'
+    if isinstance(v, Res):
+        return 'resource'
+    if isinstance(v, desper.StaticResourceMap):
+        return 'snapshot'
+    return 'other'
+
+
+def check_old_snapshot(root, before, after, verb):
+    """-> number of answers that moved with the map (live), the rest being
+    frozen."""
+    moved = 0
+    for (path, form, was), (_, _, now) in zip(before, after):
+        if _same(was, now):
+            continue                # frozen reading
+        live = live_answer(root.real, path, form)
+        if live[0] == 'map':
+            ok = now[0] == 'obj' and isinstance(now[1],
+                                                desper.StaticResourceMap)
+        else:
+            ok = _same(live, now)
+        if ok:
+            moved += 1
+            continue
+        raise Violation(
+            'old_snapshot_is_frozen_or_live',
+            f'{FORMS[form]} access of {"/".join(path)!r} on the snapshot '
+            f'taken before the {verb!r} edit of the source map gave '
+            f'{was!r} before the edit and gives {now!r} after it, while '
+            f'the map now answers {live!r}: neither the old nor the '
+            f'current content, although nothing was set or deleted on the '
+            f'snapshot', form=FORMS[form], was=_kind(was), got=_kind(now))
+    return moved
+
+
 def run_edit_case(case):
     tree_case, _, edit = case.partition(EDIT_SEP)
     style, tree = parse(tree_case)
     path, verb, name = parse_edit(edit)
     root = build(tree, style)
-    take_snapshot(root)         # the first snapshot; not looked at again
+    old = take_snapshot(root)   # the first snapshot
+    shape = shape_of(root)
+    before = read_all(shape, old)
     edit_hits = apply_edit(root, path, verb, name)
     level = 'sub' if path else 'root'
     snap = take_snapshot(root, phase='after_edit', level=level)
     chk = Checker(root, snap, 'after_edit', level=level)
     chk.compare()
+    # the old snapshot: nothing was set or deleted on it
+    after = read_all(shape, old)
+    moved = check_old_snapshot(root, before, after, verb)
     hits = dict.fromkeys(edit_hits, 1)
+    hits['old_snapshot_reread'] = len(after)
+    if 'handle_name_left_handles' in hits:
+        hits['old_snapshot_reread_of_handle_turned_map'] = 1
+    if moved:
+        hits['info_old_snapshot_answers_moved_with_map'] = moved
     if style == 'A':
         hits['append_style_layer'] = 1
-    calls = 3 + chk.calls + chk.attr_calls + chk.absent_calls
+    calls = (3 + chk.calls + chk.attr_calls + chk.absent_calls
+             + len(before) + len(after))
     return {'calls': calls, 'hits': hits, 'key': case}
 
 
